@@ -70,7 +70,112 @@ def units(tier, seed):
     # the predicate store over a wider universe (3 symbols x 2 arities + 1): slice assignments in which several arriving
     # predicates conflict with different members, some leaving and some staying
     us.append(dict(name='preds-wide', mode='preds-wide'))
+    # longer containers (5..10 members over ten values): positions in the back half, reached by index from the far end
+    for cls in ('qset', 'linqset'):
+        for k in range(2 if quick else 6):
+            us.append(dict(name=f'long:{cls}:{k}', mode='long', cls=cls, nseq=250 if quick else 2500))
     return us
+
+
+def run_long(unit, out, tier, seed):
+    """Random sequences of index/value operations with unambiguous list semantics on containers of 5..10 members, against
+    a plain list; every observation (iteration both ways, length, every index from both ends, membership, index(), a
+    few slices) is compared after every operation."""
+    import random
+    from pytableaux.tools.hybrids import qset
+    from pytableaux.tools.linked import linqset
+    C = dict(qset=qset, linqset=linqset)[unit['cls']]
+    rng = random.Random(f'{seed}:{unit["name"]}')
+    UNI = list(range(10))
+
+    def observe(c, m, ops, start):
+        probs = []
+        got = list(c)
+        if got != m:
+            probs.append(('iteration', got))
+        if list(reversed(c)) != m[::-1]:
+            probs.append(('reversed', list(reversed(c))))
+        if len(c) != len(m):
+            probs.append(('len', len(c)))
+        for i in range(-len(m), len(m)):
+            try:
+                v = c[i]
+            except Exception as e:
+                v = f'raised {type(e).__name__}'
+            if v != m[i]:
+                probs.append((f'getitem[{i}]', v))
+        for v in UNI:
+            if (v in c) != (v in m):
+                probs.append((f'contains({v})', v in c))
+            if v in m:
+                try:
+                    ix = c.index(v)
+                except Exception as e:
+                    ix = f'raised {type(e).__name__}'
+                if ix != m.index(v):
+                    probs.append((f'index({v})', ix))
+        if len(m) >= 4:
+            a = len(m) // 2
+            for sl in (slice(a, None), slice(a - 1, len(m) - 1), slice(None, None, -1), slice(a, 0, -1)):
+                try:
+                    g = list(c[sl])
+                except Exception as e:
+                    g = f'raised {type(e).__name__}'
+                if g != m[sl]:
+                    probs.append((f'slice[{sl.start}:{sl.stop}:{sl.step}]', g))
+        return probs
+
+    for sq in range(unit['nseq']):
+        n0 = rng.randint(5, 9)
+        start = rng.sample(UNI, n0)
+        c = C(start)
+        m = list(start)
+        ops = []
+        for step in range(25):
+            fresh = [v for v in UNI if v not in m]
+            kinds = ['del', 'pop', 'remove', 'reverse', 'getslice']
+            if fresh:
+                kinds += ['insert', 'insert', 'setitem', 'setitem', 'append']
+            if len(m) < 5 and fresh:
+                kinds = ['insert', 'append']
+            k = rng.choice(kinds)
+            i = rng.randrange(-len(m), len(m)) if m else 0
+            if m and rng.random() < 0.6:
+                i = rng.randrange(len(m) // 2, len(m))          # back half, from the front end
+            try:
+                if k == 'del':
+                    ops.append(('del', i)); del c[i]; del m[i]
+                elif k == 'pop':
+                    ops.append(('pop', i)); r1 = c.pop(i); r2 = m.pop(i)
+                    if r1 != r2:
+                        raise AssertionError(f'pop({i}) returned {r1}, list model {r2}')
+                elif k == 'remove':
+                    v = m[i]; ops.append(('remove', v)); c.remove(v); m.remove(v)
+                elif k == 'reverse':
+                    ops.append(('reverse',)); c.reverse(); m.reverse()
+                elif k == 'insert':
+                    v = rng.choice(fresh); ops.append(('insert', i, v)); c.insert(i, v); m.insert(i, v)
+                elif k == 'setitem':
+                    v = rng.choice(fresh); ops.append(('setitem', i, v)); c[i] = v; m[i] = v
+                elif k == 'append':
+                    v = rng.choice(fresh); ops.append(('append', v)); c.append(v); m.append(v)
+                else:
+                    ops.append(('getslice', i))
+            except Exception as e:
+                out.violation('long-container', dict(cls=unit['cls'], start=start, ops=[list(o) for o in ops]),
+                              dict(cls=unit['cls'], op=ops[-1][0], clause='operation-raises-or-returns-wrong', error=type(e).__name__),
+                              f"{unit['cls']}({start}) after {ops[:-1]}: {ops[-1]} -> {type(e).__name__}: {e}", size=len(ops))
+                break
+            out.count('long_container_ops')
+            probs = observe(c, m, ops, start)
+            if probs:
+                out.violation('long-container', dict(cls=unit['cls'], start=start, ops=[list(o) for o in ops], model=m,
+                                                      observed=[list(map(str, p)) for p in probs[:6]]),
+                              dict(cls=unit['cls'], op=ops[-1][0], clause='differs-from-list-model', first=probs[0][0].split('[')[0].split('(')[0]),
+                              f"{unit['cls']}({start}) after {ops}: list model {m}, observed {probs[:4]}", size=len(ops))
+                break
+        out.case(('long', unit['cls'], tuple(start), tuple(ops)), nontrivial=True)
+        out.count('long_sequences')
 
 
 WIDE = ((0, 0, 1), (0, 0, 2), (1, 0, 1), (1, 0, 2), (2, 0, 1), (2, 0, 2), (3, 0, 1))
@@ -993,6 +1098,8 @@ def run_unit(unit, out, tier, seed):
         run_rnd(unit, out, seed, ic=True)
     elif mode == 'preds-wide':
         run_preds_wide(unit, out, tier, seed)
+    elif mode == 'long':
+        run_long(unit, out, tier, seed)
     else:
         raise ValueError(mode)
 
@@ -1011,6 +1118,13 @@ def replay(wit):
         from ..worker import Out
         out = Out()
         run_preds_wide({}, out, 'thorough', 0)
+        same = [v for v in out.violations if v['diagnosis'] == wit['diagnosis']]
+        return dict(violates=bool(same), detail=[v['message'] for v in same][:3])
+    if wit.get('kind') == 'long-container':
+        from ..worker import Out
+        out = Out()
+        for k in range(6):
+            run_long(dict(name=f"long:{c['cls']}:{k}", cls=c['cls'], nseq=400), out, 'thorough', 0)
         same = [v for v in out.violations if v['diagnosis'] == wit['diagnosis']]
         return dict(violates=bool(same), detail=[v['message'] for v in same][:3])
     dom = dom_for(c['cls'])
